@@ -252,6 +252,8 @@ def unit_random(item):
     recs = all_tours(kind, n)
     if tier == "quick" and len(recs) > 12:
         recs = recs[:: max(1, len(recs) // 12)]
+    if k >= 5:
+        recs = recs[:: max(1, len(recs) // (3 if tier == "quick" else 12))]
     cfg = f"k{k}" if kind == "tsp" else ""
     for rec in recs:
         td0 = reset_with_tours(env, kind, locs, [rec, rec])  # two identical rows: batch size 1 is not supported by the samplers
@@ -397,6 +399,8 @@ def work_items(tier):
         items.append(("random", "tsp", 5, k, [list(x) for x in PTS[:5]], tier))
         if not q:
             items.append(("random", "tsp", 6, k, [list(x) for x in PTS[:6]], tier))
+    # k = 5: larger k is documented ("k in {2,3,4,...}") although unused by the bundled models
+    items.append(("random", "tsp", 6, 5, [list(x) for x in PTS[:6]], tier))
     items.append(("random", "pdp", 5, 0, [list(x) for x in PTS[:5]], tier))
     for ws in (0, 1):
         items.append(("policy", "dact", "tsp", 5, 2, [list(x) for x in PTS[:5]], tier, ws))
